@@ -139,6 +139,51 @@ def run(F, R, tier):
                             arg = peel_value(c[0]["args"][0])
                             ok = arg.get("k") == "Field" and arg["field"] == "specifier" and "range" in expr_text(arg["e"])
             R.ob("C07-b", "%s attributes to the package owning the importing module's URL" % fn.split("::")[-1], ok, "nv argument `%s` is not package_url_to_nv(&range.specifier)" % expr_text(a["args"][0]), where(a))
+    # every resolved dependency edge is attributed with its *own* range: either
+    # it is loaded right away with that range, or (parked dynamic branches,
+    # which are later loaded once with the first importer's range only) it is
+    # attributed when it is parked
+    vmd = F.body("graph::Builder::visit_module_dependencies")
+    n_edges = 0
+    for n in vmd["_nodes"]:
+        if not (n["k"] == "If" and n["cond"].get("k") == "Let" and "graph::Resolution::Ok" in pat_text(n["cond"]["pat"])):
+            continue
+        n_edges += 1
+        binds = {b["lid"] for b in pat_bindings(n["cond"]["pat"])}
+
+        def range_local(e):
+            e = peel_value(e)
+            if ctor_of(e) == "std::option::Option::Some":
+                e = peel_value(e["args"][0])
+            if e.get("res") == "local":
+                for d in local_defs(vmd, e["lid"]):
+                    if d[1] is not None:
+                        i = peel_value(d[1])
+                        if i.get("k") == "Field" and i["field"] == "range" and peel_value(i["e"]).get("lid") in binds:
+                            return True
+            return e.get("k") == "Field" and e["field"] == "range" and peel_value(e["e"]).get("lid") in binds
+
+        def attributes(m):
+            if callee_matches(m, ["Builder::load"]):
+                st = [s_ for s_ in walk(m) if s_.get("k") == "Struct" and s_.get("adt") == "graph::LoadOptionsRef"]
+                return bool(st) and range_local([f["e"] for f in st[0]["fields"] if f["name"] == "maybe_range"][0])
+            if m.get("k") in ("Call", "MethodCall"):
+                tgt = m.get("impl") or m.get("fn")
+                if tgt in ("graph::Builder::maybe_mark_dep", "graph::Builder::mark_jsr_dep", "graph::Builder::mark_npm_dep"):
+                    return any(range_local(a) for a in call_args(m)[1:])
+                # a local helper that forwards (specifier, range) to maybe_mark_dep
+                hb = F.by_path.get(tgt or "")
+                if hb and hb[0]["path"].startswith("graph::Builder::") and any(callee_matches(x, ["Builder::maybe_mark_dep", "Builder::mark_jsr_dep", "Builder::mark_npm_dep"]) for x in hb[0]["_nodes"]):
+                    return any(range_local(a) for a in call_args(m)[1:])
+            return False
+
+        bad, _ = must_pass(F, n["then"], attributes, exit_kinds=("fallthrough", "return", "break", "continue"))
+        fld = [x["field"] for x in walk(n["cond"]["init"]) if x.get("k") == "Field"]
+        R.ob("C07-b", "resolved %s edge is attributed to its own importer on every path (loaded with its range, or marked when parked)" % (fld[0] if fld else "?"), not bad,
+             "a path through this dependency branch (the parked dynamic-import path) neither loads the target with this import's range nor marks the jsr:/npm: requirement for it: when two packages dynamically import the same jsr: specifier only the first importer's package gets the dependency recorded",
+             where(bad[0][1]) if bad else where(n), key="C07|C07-b|graph::Builder::visit_module_dependencies|parked-dynamic-import-not-attributed")
+    R.floor("C07-b dependency edges in visit_module_dependencies", n_edges, 2)
+
     # ---------------- C07-c ------------------------------------------------
     rp = F.body("graph::Builder::resolve_pending")
     ifs = [n for n in rp["_nodes"] if n["k"] == "If" and n["cond"].get("k") == "Let" and "loaded_package_via_https_url" in expr_text(n["cond"]["init"])]
